@@ -209,7 +209,8 @@ def run(ctx):
                 sites = set()
             else:
                 sites = allowed_sites.get(name, set())
-                ok = u.uid in sites
+                # (a helper that only the reviewed sites call is part of them: R17.1 interprets the handlers with their helpers inlined)
+                ok = u.uid in sites or (bool(sites) and program.only_reached_from(u.uid, sites))
             ctx.check(ok, "R17.2", u.uid, f"use of {name} at a reviewed site",
                       msg=f"{u.uid} uses {name} (`{short(n)}`): modules must enter a script only through the import handlers' allow-list check (reviewed sites: {sorted(sites)})",
                       key=f"use of {name}", node=n, rel=u.rel)
